@@ -223,8 +223,10 @@ public:
 
   void PropagateResult(ExpAConstraint& con, double , double , Context ctx) {
     con.AddContext(ctx);           // merge context
+    // a^x is decreasing for a base below 1
+    auto ctx_new = (con.GetParameters()[0]>=1.0) ? ctx : -ctx;
     PropagateResult2Args(con.GetArguments(),     // monotone
-                         MPD( MinusInfty() ), MPD( Infty() ), ctx);
+                         MPD( MinusInfty() ), MPD( Infty() ), ctx_new);
   }
 
 
